@@ -143,6 +143,18 @@ pub fn run(run: &mut Run) -> PResult {
         let names: Vec<&'static str> = tables().iter().map(|t| t.0).collect();
         super::common::disturbance_pass(run, &names, &|n| tables().into_iter().find(|t| t.0 == *n).map(|t| t.2).unwrap_or(Ok(())), &|n| ("C18.table".into(), json!({"table": n}), n.to_string()))?;
     }
+    super::common::count_soak(run, "Deck::get", (1 << 30) + (1 << 16), &|n| {
+        let i = match n % 8 {
+            0..=5 => (n / 8 % 52) as usize,
+            6 => 52 + (n / 8 % 12) as usize,
+            _ => (n as usize).wrapping_mul(0x9E37_79B9_7F4A_7C15),
+        };
+        let want = if i < 52 { card::DECK[i] } else { 0 };
+        if Deck::get(i) != want {
+            return Err(format!("Deck::get({}) = {}, expected {}", i, card::render(Deck::get(i)), card::render(want)));
+        }
+        Ok(())
+    })?;
     let mut total = 0u64;
     for (name, n, r) in tables() {
         total += n;
@@ -206,7 +218,10 @@ pub fn run(run: &mut Run) -> PResult {
 }
 
 pub fn check_case(clause: &str, case: &Value) -> Result<(), String> {
-    if clause.ends_with(".after_disturbance") || clause.ends_with(".concurrent") || clause.ends_with(".concurrent_cold_start") {
+    if clause.ends_with(".soak") {
+        return Err("the Deck::get soak is replayed by running ./check C18 quick".into());
+    }
+    if clause.ends_with(".after_disturbance") || clause.ends_with(".concurrent") || clause.ends_with(".concurrent_cold_start") || clause.ends_with(".after_repetition") {
         return super::common::replay_after_disturbance(case, check_case);
     }
     match clause {
@@ -228,3 +243,4 @@ pub fn check_case(clause: &str, case: &Value) -> Result<(), String> {
         _ => Err(format!("unknown clause {}", clause)),
     }
 }
+
